@@ -219,6 +219,8 @@ class Tr:
                         else: raise Unsupported("assignment target " + ast.dump(n)[:80])
             elif isinstance(s, ast.If):
                 for n in self.assigned(s.body) + self.assigned(s.orelse): add(n)
+            elif isinstance(s, ast.Try):
+                for n in self.assigned(s.body): add(n)
             elif (isinstance(s, ast.Expr) and isinstance(s.value, ast.Call) and isinstance(s.value.func, ast.Attribute)
                   and isinstance(s.value.func.value, ast.Name) and s.value.func.value.id == "self"):
                 m = s.value.func.attr
@@ -258,6 +260,19 @@ class Tr:
                     if not self.spec.mutates: raise Unsupported("mutating call in a function that is not state-passing")
                     return pad + self.wrap(binds, "'(self, _) <- %s ;;\n%s" % (call, self.block(rest, ind, fall)))
                 return pad + self.wrap(binds, "_ <- %s ;;\n%s" % (call, self.block(rest, ind, fall)))
+        if isinstance(s, ast.Try):
+            # `try: BODY except BaseException: <assignments to self.x / locals>; raise` without else/finally. In the exception monad M a
+            # Raise carries no state, so restoring in-memory attributes before re-raising is not observable in the generated function: the
+            # body is translated in place, the handler is only checked for this exact shape (anything else fails closed).
+            if s.orelse or s.finalbody or len(s.handlers) != 1: raise Unsupported("try with else/finally/several handlers")
+            h = s.handlers[0]
+            if not (isinstance(h.type, ast.Name) and h.type.id == "BaseException" and h.name is None): raise Unsupported("except clause other than `except BaseException:`")
+            hb = [x for x in h.body if not self.is_dropped(x)]
+            if not hb or not (isinstance(hb[-1], ast.Raise) and hb[-1].exc is None and hb[-1].cause is None): raise Unsupported("handler does not end in a bare raise")
+            for x in hb[:-1]:
+                if not isinstance(x, ast.Assign) or any(isinstance(n, ast.Call) for n in ast.walk(x)): raise Unsupported("handler statement other than a call-free assignment")
+            if self.terminates(s.body): raise Unsupported("return/raise as last statement of a try body")
+            return self.block(list(s.body) + rest, ind, fall)
         if isinstance(s, ast.Return):
             if rest: raise Unsupported("statements after return")
             if fall is not None and not fall.startswith("Ok (inr "): raise Unsupported("return inside a joined branch")
